@@ -1095,12 +1095,15 @@ def compileStmt : Stmt → CM Unit
         patchAll postStmtPos loop.breaks
         patchAll postBodyPos loop.continues
   | .declParam pos specs => do
-    if (← get).tables.length > 1 then cerr pos "param not allowed in this scope"
+    -- compileDeclStmt: `len(decl.Specs) == 0` is checked for every declaration kind
+    if specs.isEmpty then cerr pos "empty declaration not allowed"
+    else if (← get).tables.length > 1 then cerr pos "param not allowed in this scope"
     else do
       declParamVariadic pos specs
       setParams pos (specs.map fun (_, n, _) => n)
   | .declGlobal pos specs => do
-    if (← get).tables.length > 1 then cerr pos "global not allowed in this scope"
+    if specs.isEmpty then cerr pos "empty declaration not allowed"
+    else if (← get).tables.length > 1 then cerr pos "global not allowed in this scope"
     else declGlobals pos specs
   | .declValue pos tok specs => do
     if specs.isEmpty then cerr pos "empty declaration not allowed"
